@@ -61,6 +61,16 @@ impl StorageData for FileStorageMemoryMapped {
         self.memory.rename(new_name)
     }
 
+    fn rollback(&mut self) -> Result<bool, DbError> {
+        if !self.file.rollback()? {
+            return Ok(false);
+        }
+
+        let buffer = self.file.read(0, self.file.len())?.to_vec();
+        self.memory = MemoryStorage::from_buffer(self.file.name(), buffer);
+        Ok(true)
+    }
+
     fn resize(&mut self, new_len: u64) -> Result<(), DbError> {
         self.memory.resize(new_len)?;
         self.file.resize(new_len)
